@@ -809,6 +809,17 @@ def table_verdicts(ctx, rep, R):
 # ---------------------------------------------------------------------------
 # seeded variants (thorough tier)
 
+@SPEC.rule(
+    "R01.11",
+    "the on-disk cache is the only memory: no function of parser.py writes a module-level or class-level container, is wrapped in a "
+    "caching decorator or keeps a mutable default — an in-process memo in front of the database (keyed by the text, its hash, its "
+    "length) would serve trees without the version / integrity / failed-parse discipline the database path is checked for",
+)
+def r01_11(ctx, rep):
+    from .c25 import module_state_free
+    module_state_free(ctx, rep, "R01.11", PARSER, "the parser module (parse() and the cache helpers)")
+
+
 from ._mut import (  # noqa: E402
     delete_stmt_where,
     replace_const_str,
